@@ -143,6 +143,8 @@ def k_direct(run, case):
         delta = int(rng.integers(1, n + 1))
     elif unit == "meters":
         delta = float(np.sum(seg)) * 10.0**rng.uniform(-2, 0.1) + 1e-9
+        if gen.all_integer(seg) and rng.random() < .7:
+            delta = float(rng.integers(1, 7))  # grid data: the travelled path hits delta exactly
     else:
         delta = rng.uniform(0.05, PI) * (180 / PI if unit == "degrees" else 1)
     rel_tol = [0.01, 0.1, 0.5][rng.integers(3)]
@@ -172,6 +174,10 @@ def k_direct(run, case):
         return
     run.check(len(rec.calls) == 1, "pairs recorded at id_pairs_from_delta", case,
               "id_pairs_from_delta was reached %d times" % len(rec.calls))
+    if unit == "meters" and not all_pairs and gen.all_integer(seg) and delta == int(delta) and pairs:
+        # exact grid: the selected pairs themselves are decided without rounding (C10's chain oracle)
+        from vmon.props import C10
+        C10.check_consecutive(run, case, pairs, seg, delta, 0.0, "meters consecutive", "consec-path")
     fwd = [(i, j) for (i, j) in pairs if not 0 <= i < j < n]
     if not run.check(not fwd, "RPE: every evaluated pair is a relative motion i -> j with 0 <= i < j < N", case,
                      "values were computed for %d pairs that are no forward pairs, e.g. %s" % (len(fwd), fwd[:3]),
